@@ -220,7 +220,7 @@ template <class Mesh> void HistRun<Mesh>::op_sweep(R &r, const Op &q) {
     bool complete = plan.c("sweep_complete", 0);
     size_t stride = complete ? 1 : std::max<size_t>(1, img.size() / 48);
     size_t phase = complete ? 0 : (size_t)q.a[2] % stride;
-    int kind = q.a[0] % 6;
+    int kind = q.a[0] % 8;
     uint64_t budget = 400000 + 6000ull * img.size();
     auto load = [&](const std::string &image, ReadFaults &rf, PolyMesh &dst) {
         IO::ReadOptions ro; ro.topology_check = q.a[3] & 1; ro.bottom_up_incidences = q.a[3] & 2;
@@ -295,6 +295,32 @@ template <class Mesh> void HistRun<Mesh>::op_sweep(R &r, const Op &q) {
             if (lo.ok) ctx.fail(OW, "read-fail-ok", "input stream failing from byte " + std::to_string(p) + " of " + std::to_string(img.size()) + (boundaries.count(p) ? " (chunk boundary)" : "") + " gave result Ok");
         }
         { PolyMesh dst; ReadFaults rf; rf.seek_fails = true; load(img, rf, dst); st.add("fault_seek_fail", rf.fired_seek ? 1 : 0); }
+    } else if (kind == 6 || kind == 7) {
+        // path overloads behind the syscall seam: the device is full after p bytes (write side), read(2) fails after p bytes (read side)
+        std::string path = g_scratch_dir + "/sweep_" + std::to_string(getpid()) + ".ovmb";
+        if (kind == 7) { std::ofstream f(path, std::ios::binary); f << img; }
+        for (size_t p = 0; p < img.size(); ++p) {
+            if (!(p % stride == phase || boundaries.count(p))) continue;
+            if (kind == 6) {
+                sys_arm(path.c_str(), (long)p, -1, false);
+                IO::WriteResult wr = IO::ovmb_write(std::filesystem::path(path), *r.mesh);
+                long fired = g_sys.fired_enospc;
+                sys_disarm();
+                ++cases; st.add("fault_syscall_enospc", fired ? 1 : 0);
+                if (wr == IO::WriteResult::Ok) ctx.fail(OW, "write-fail-ok-path", "device full after " + std::to_string(p) + " of " + std::to_string(img.size()) + " bytes (write(2) returned ENOSPC " + std::to_string(fired) + " times), ovmb_write(path) returned Ok");
+            } else {
+                PolyMesh dst;
+                sys_arm(path.c_str(), -1, (long)p, false);
+                IO::ReadOptions ro; ro.topology_check = q.a[3] & 1; ro.bottom_up_incidences = q.a[3] & 2;
+                IO::ReadResult rr = IO::ReadResult::OtherError;
+                try { rr = IO::ovmb_read(std::filesystem::path(path), dst, ro); } catch (const std::exception &) {}
+                long fired = g_sys.fired_eio;
+                sys_disarm();
+                ++cases; st.add("fault_syscall_read_eio", fired ? 1 : 0);
+                if (rr == IO::ReadResult::Ok) ctx.fail(OW, "read-fail-ok-path", "read(2) failing with EIO after " + std::to_string(p) + " of " + std::to_string(img.size()) + " bytes, ovmb_read(path) returned Ok");
+            }
+        }
+        unlink(path.c_str());
     } else {
         // the output stream starts failing at byte p
         for (size_t p = 0; p < img.size(); ++p) {
